@@ -18,6 +18,7 @@ POOL = [
     "b:\n  - 2\n  - 3\nc:\n  d: 1\n", "c:\n  d: 2\n  e: 3\n",
     "- 1\n", "- 2\n- 3\n", "-\n  id: 1\n  v: a\n", "-\n  id: 1\n  w: b\n",
     "# empty\n", "s:\n  - x\nt: !!set\n  ? p\n", "t: !!set\n  ? q\n",
+    "- 1\n- 2\n", "- 2\n- 4\n",
 ]
 MODES = ["condense_all", "merge_across", "matrix_merge"]
 MIXES = [("deep", "all", "all", "unique"), ("deep", "unique", "deep", "unique"),
@@ -25,7 +26,7 @@ MIXES = [("deep", "all", "all", "unique"), ("deep", "unique", "deep", "unique"),
          ("deep", "right", "all", "unique")]
 RULE = ("E1: left and right streams of 1..3 documents (quick; 1..4 thorough "
         "by stride) drawn from a %d-document pool (hashes sharing keys with "
-        "list/hash/set values, arrays, Arrays-of-Hashes with an identity "
+        "list/hash/set values, arrays incl. overlapping ones, Arrays-of-Hashes with an identity "
         "key, an empty document) written to temporary files, x the three "
         "multi-document modes x 5 policy mixes, driven through "
         "get_doc_mergers() + merge_docs(). Oracle (differential on the "
@@ -72,16 +73,19 @@ def fold(left_text_or_doc, right_texts, mix, mode):
     from yamlpath.exceptions import YAMLPathException
     left = fresh(left_text_or_doc) if isinstance(left_text_or_doc, str) \
         else left_text_or_doc
-    merger = Merger(gdocs.logger(), left, config_for(mix, mode))
     failed = False
     for rt in right_texts:
+        # a new Merger (and configuration) for every step: nothing but the
+        # merged data itself is carried from one step to the next
+        merger = Merger(gdocs.logger(), left, config_for(mix, mode))
         try:
             merger.merge_with(fresh(rt))
         except (MergeException, YAMLPathException):
             failed = True
             if mode != "condense_all":
                 break
-    return merger.data, failed
+        left = merger.data
+    return left, failed
 
 
 def expected(lidx, ridx, mix, mode):
